@@ -1,7 +1,7 @@
 (* C07 — imports are confined by local configuration: criteria map, exclude, importable. *)
 Require Import Base Extracted Criteria Search AuditGraph DepGraph Resolve Update Imports.
 Require Import CriteriaProofs ImportsProofs ResolveProofs ResolveTheorems RecordSets.
-Require Import LockSync LockSyncProofs.
+Require Import LockSync LockSyncProofs ViolationProofs.
 Local Open Scope N_scope.
 
 (* An imported entry contributes to local criterion x exactly when some criterion f
@@ -90,6 +90,13 @@ Example C07_stale_exclude_nonvacuous :
                       [ {| ls_name := 0; ls_audit_crates := [7]; ls_wild_crates := [] |}; {| ls_name := 1; ls_audit_crates := []; ls_wild_crates := [7] |} ] = LOutdated.
 Proof. vm_compute. reflexivity. Qed.
 
+(* "unmapped peer criteria contribute nothing" for VIOLATION entries: an imported violation whose criteria were all unmapped
+   arrives with an empty criteria list (violations are kept whatever they say) and conflicts with no audit and no exemption *)
+Theorem C07_violation_without_criteria_conflicts_with_nothing : forall t s,
+  (forall src o a r, In (src, o, a) (all_audits s) -> au_kind a = KViolation r -> au_crit a = []) ->
+  violation_conflicts t s = [].
+Proof. exact violations_without_criteria_conflict_with_nothing. Qed.
+
 Print Assumptions C07_mapping.
 Print Assumptions C07_unmapped_contributes_nothing.
 Print Assumptions C07_builtins_map_to_themselves.
@@ -102,3 +109,4 @@ Print Assumptions C07_multi_url_verdict_is_that_of_the_union.
 Print Assumptions C07_verdict_is_a_function_of_the_remaining_records.
 Print Assumptions C07_accepted_lock_is_in_step.
 Print Assumptions C07_stale_excluded_entry_is_refused.
+Print Assumptions C07_violation_without_criteria_conflicts_with_nothing.
